@@ -62,6 +62,14 @@ def make_backoff(spec, attempts):
     if spec.get('jitter'):
         kw['jitter'] = ScriptedJitter(spec['jitter'])
     f = spec['family']
+    if spec.get('positional'):
+        # configured by position, in the documented parameter order (attempts, jitter, then the family's own parameters)
+        jit = kw.get('jitter') or (lambda: 0.0)
+        if f == 'periodic':
+            return R.PeriodicBackoff(attempts, jit, spec.get('interval', 1.0))
+        if f == 'exponential':
+            return R.ExponentialBackoff(attempts, jit, spec.get('base', 1.0), spec.get('factor', 2.0), spec.get('max_value'))
+        return R.FibonacciBackoff(attempts, jit, spec.get('multiplier', 1.0), *([spec['max_value']] if 'max_value' in spec else []))
     if f == 'periodic':
         return R.PeriodicBackoff(attempts=attempts, interval=spec.get('interval', 1.0), **kw)
     if f == 'exponential':
